@@ -72,6 +72,7 @@ fn main() {
                 "C16" => drive::drive_c16(&t, &mut m, &mut sink),
                 "C17" => drive2::drive_c17(&t, &mut sink, &mut stats),
                 "C18" => {
+                    drive2::drive_c18_targeted(&t, &mut sink, &mut stats);
                     let ks = [kinds::Kind::D, kinds::Kind::A];
                     drive2::drive_histories(&t, &mut sink, drive2::Profile::Cap, "cap", &ks, t.q(500, 3000), t.q(30, 50), &mut stats);
                     let fk: Vec<kinds::Kind> = all.iter().copied().filter(|k| k.is_fixed()).collect();
